@@ -6,6 +6,21 @@ from ..guards import guards_of
 from . import C04
 
 
+def filter_decision_fn(P):
+    """the decision function behind the public filter_path / filter_subdir / filter_emptydir wrappers (filter_element today): found
+    as their single common defined callee, so a rename of the static function does not lose the anchor"""
+    common = None
+    for wn in ('filter_path', 'filter_subdir', 'filter_emptydir'):
+        if not P.has(wn):
+            raise AnalysisBroken('public filter wrapper %s not found' % wn)
+        w = P.fn(wn)
+        cal = {c.callee for c in w.calls() if c.callee_full in P.functions and not P.functions[c.callee_full].decl}
+        common = cal if common is None else (common & cal)
+    if not common or len(common) != 1:
+        raise AnalysisBroken('the decision function shared by filter_path / filter_subdir / filter_emptydir was not identified (%s)' % sorted(common or ()))
+    return list(common)[0]
+
+
 def run(ctx, rep):
     P = ctx.prog
     rep.explanation = ('Matching semantics (first match, default direction, globbing) is NOT decided. Decided: every admission site of the scanner is control-dependent on the matching filter call returning 0 and on the '
@@ -101,14 +116,15 @@ def run(ctx, rep):
     # exists for descending into directories, and the directory flag of the rule evaluation has to match the entity kind
     rep.rule('R-C18-5', 'state_filter: every path test of the selection excludes by default when only include rules are given (is_def_include = 0), with is_dir = 0 for files and links and is_dir = 1 for directories', 3)
     wrappers = {}
+    fe_name = filter_decision_fn(P)
     for w in P.defined():
-        cs = list(w.calls('filter_element'))
-        if len(cs) == 1 and base(w.name) != 'filter_element' and len(list(w.calls())) == 1:
+        cs = list(w.calls(fe_name))
+        if len(cs) == 1 and base(w.name) != fe_name and len(list(w.calls())) == 1:
             a_dir, a_def = w.const_of(cs[0].ops[4]), w.const_of(cs[0].ops[5])
             if a_dir is not None and a_def is not None:
                 wrappers[base(w.name)] = (a_dir, a_def)
     if len(wrappers) < 3:
-        raise AnalysisBroken('filter wrappers over filter_element not found (%s)' % sorted(wrappers))
+        raise AnalysisBroken('filter wrappers over %s not found (%s)' % (fe_name, sorted(wrappers)))
     kinds = {'file_flag_set': 0, 'link_flag_set': 0, 'dir_flag_set': 1}
     seen_k = set()
     for mark in sf.calls(set(kinds)):
@@ -147,7 +163,7 @@ def filter_semantics_rule(P, rep, rid='R-C18-6'):
     import itertools, re as _re2
     from .. import region as RG
     rep.rule(rid, 'include/exclude decision function equals the documented rules over an exhaustive small domain of rule lists (1-2 rules, 9 pattern shapes, both directions) and paths (files and directories, 3 levels)', 3000)
-    fa = P.fn('filter_alloc_file'); fe = P.fn('filter_element')
+    fa = P.fn('filter_alloc_file'); fe = P.fn(filter_decision_fn(P))
     rep.analysed(fa, fe, P.fn('filter_recurse'), P.fn('filter_apply'))
     lay = P.distructs.get('snapraid_filter'); nl = P.distructs.get('tommy_node_struct')
     if not lay or not nl:
